@@ -2,37 +2,99 @@
 C12 — frequency ↔ MIDI pitch in equal temperament, over the real numbers.
 
 `midi_pitch_to_frequency(p, a4) = (a4/32)·2^((p−9)/12)` and
-`frequency_to_midi_pitch(f, a4) = round(12·log₂(32·f/a4) + 9)` are transcendental, so this
-part of C12 is a theorem about ℝ (noncomputable definitions written from the two source
-lines); the binary64 implementation is compared exhaustively on MIDI 0..127 × a4 ∈ {415, 440, 442}
-by harness/props/c12.py.
+`frequency_to_midi_pitch(f, a4) = round(12·log₂(32·f/a4) + 9)` are transcendental, so this part of C12 is a theorem
+about ℝ.  The two definitions below are written over the constants REGENERATED from the two source lines
+(Gen/C12Tables.lean: `m2fDiv m2fBase m2fRef m2fOctave`, `f2mOctave f2mMul f2mRef`); what the proofs use about them is
+`C12.freq_consts` (decided in Props/C12Ext.lean), so they hold for any way of writing the formulas that keeps base 2,
+one octave size and scale factors that differ by the octaves between the two reference pitches (e.g. the textbook
+`a4 · 2^((p−69)/12)`).
+
+`freq_pitch_stable` is the margin for the binary64 implementation: a frequency within 1 % of the exact value and a
+logarithm off by 0.01 still round to the pitch; numpy's pow / log2 are accurate to ~1e-15 (trusted), and
+harness/props/c12.py compares the implementation on MIDI −36..179 × seven tunings and on every number type.
 -/
 import Mathlib.Analysis.SpecialFunctions.Log.Base
+import PartituraModel.Proofs.C12Freq
+import PartituraModel.Props.C12Ext
 
 namespace C12
+open Gen.C12
 
-noncomputable def midiToFreq (p : ℝ) (a4 : ℝ) : ℝ := (a4 / 32) * (2 : ℝ) ^ ((p - 9) / 12)
-noncomputable def freqToMidi (f : ℝ) (a4 : ℝ) : ℤ := round (12 * Real.logb 2 (32 * f / a4) + 9)
+noncomputable def midiToFreq (p : ℝ) (a4 : ℝ) : ℝ :=
+  (a4 / ((m2fDiv : ℚ) : ℝ)) * (((m2fBase : ℚ) : ℝ) ^ ((p - ((m2fRef : ℚ) : ℝ)) / ((m2fOctave : ℚ) : ℝ)))
+
+noncomputable def freqToMidi (f : ℝ) (a4 : ℝ) : ℤ :=
+  round (((f2mOctave : ℚ) : ℝ) * Real.logb 2 (((f2mMul : ℚ) : ℝ) * f / a4) + ((f2mRef : ℚ) : ℝ))
+
+/-- the regenerated constants, cast to ℝ -/
+theorem freq_consts_real :
+    ((m2fBase : ℚ) : ℝ) = 2 ∧ ((f2mOctave : ℚ) : ℝ) = ((m2fOctave : ℚ) : ℝ) ∧ ((m2fOctave : ℚ) : ℝ) ≠ 0 ∧
+    ((m2fDiv : ℚ) : ℝ) ≠ 0 ∧ ((f2mMul : ℚ) : ℝ) = ((m2fDiv : ℚ) : ℝ) * 2 ^ freqShift ∧
+    (freqShift : ℝ) * ((m2fOctave : ℚ) : ℝ) = ((m2fRef : ℚ) : ℝ) - ((f2mRef : ℚ) : ℝ) := by
+  obtain ⟨h1, h2, h3, h4, h5, h6⟩ := freq_consts
+  refine ⟨by rw [h1]; norm_num, by rw [h2], by exact_mod_cast h3, by exact_mod_cast h4, ?_, ?_⟩
+  · rw [h5]; push_cast; ring
+  · have : (((freqShift : ℚ) * m2fOctave : ℚ) : ℝ) = ((m2fRef - f2mRef : ℚ) : ℝ) := by rw [h6]
+    push_cast at this
+    exact this
 
 /-- frequency and MIDI pitch invert each other for every integer pitch and every positive tuning -/
 theorem freq_pitch (p : ℤ) (a4 : ℝ) (h : 0 < a4) : freqToMidi (midiToFreq p a4) a4 = p := by
+  obtain ⟨h1, h2, h3, h4, h5, h6⟩ := freq_consts_real
   unfold freqToMidi midiToFreq
-  have h1 : 32 * (a4 / 32 * (2 : ℝ) ^ (((p : ℝ) - 9) / 12)) / a4 = (2 : ℝ) ^ (((p : ℝ) - 9) / 12) := by
-    field_simp
-  rw [h1, Real.logb_rpow (by norm_num) (by norm_num)]
-  have h2 : 12 * (((p : ℝ) - 9) / 12) + 9 = (p : ℝ) := by ring
-  rw [h2, round_intCast]
+  rw [h1, h2]
+  exact C12Freq.inverse _ _ _ _ _ freqShift h4 h3 h5 h6 p a4 h
+
+/-- … also with the tuning left out in both calls (the two keyword defaults are the same frequency) -/
+theorem freq_pitch_default (p : ℤ) :
+    freqToMidi (midiToFreq p ((m2fDefaultA4 : ℚ) : ℝ)) ((f2mDefaultA4 : ℚ) : ℝ) = p := by
+  rw [← freq_defaults_agree.1]
+  exact freq_pitch p _ (by exact_mod_cast freq_defaults_agree.2)
+
+theorem octave_twelve : m2fOctave = 12 ∧ 0 < m2fDiv := by decide +kernel
+
+/-- … and still do when the frequency is off by up to 1 % and the logarithm by up to 0.01 (the binary64 library
+    functions are ~13 orders of magnitude inside this margin) -/
+theorem freq_pitch_stable (p : ℤ) (a4 f d : ℝ) (h : 0 < a4)
+    (hf1 : 99 / 100 * midiToFreq p a4 ≤ f) (hf2 : f ≤ 101 / 100 * midiToFreq p a4) (hd : |d| ≤ 1 / 100) :
+    round (((f2mOctave : ℚ) : ℝ) * (Real.logb 2 (((f2mMul : ℚ) : ℝ) * f / a4) + d) + ((f2mRef : ℚ) : ℝ)) = p := by
+  obtain ⟨h1, h2, h3, h4, h5, h6⟩ := freq_consts_real
+  have ho : ((m2fOctave : ℚ) : ℝ) = 12 := by rw [octave_twelve.1]; norm_num
+  have hD : (0 : ℝ) < ((m2fDiv : ℚ) : ℝ) := by exact_mod_cast octave_twelve.2
+  unfold midiToFreq at hf1 hf2
+  rw [h1, ho] at hf1 hf2
+  rw [h2, ho]
+  rw [ho] at h6
+  exact C12Freq.stable _ _ _ _ freqShift h4 h5 h6 p a4 f d h hD hf1 hf2 hd
+
+/-- octaves from the reference pitch of `midi_pitch_to_frequency` up to A4 = 69 -/
+def a4Shift : Nat := ((69 - m2fRef) / m2fOctave).num.toNat
+
+theorem a4_consts : m2fDiv = 2 ^ a4Shift ∧ (a4Shift : Rat) * m2fOctave = 69 - m2fRef := by decide +kernel
 
 /-- A4 = MIDI 69 sounds at the tuning frequency; an octave doubles the frequency -/
 theorem freq_a4 (a4 : ℝ) : midiToFreq 69 a4 = a4 := by
+  obtain ⟨h1, _, h3, h4, _, _⟩ := freq_consts_real
+  obtain ⟨c1, c2⟩ := a4_consts
+  have c1' : ((m2fDiv : ℚ) : ℝ) = 2 ^ a4Shift := by rw [c1]; push_cast; ring
+  have c2' : (a4Shift : ℝ) * ((m2fOctave : ℚ) : ℝ) = 69 - ((m2fRef : ℚ) : ℝ) := by
+    have : (((a4Shift : ℚ) * m2fOctave : ℚ) : ℝ) = ((69 - m2fRef : ℚ) : ℝ) := by rw [c2]
+    push_cast at this
+    exact this
   unfold midiToFreq
-  have : ((69 : ℝ) - 9) / 12 = (5 : ℕ) := by norm_num
-  rw [this, Real.rpow_natCast]
-  ring
+  rw [h1]
+  have : ((69 : ℝ) - ((m2fRef : ℚ) : ℝ)) / ((m2fOctave : ℚ) : ℝ) = (a4Shift : ℕ) := by
+    rw [← c2']; field_simp
+  rw [this, Real.rpow_natCast, c1']
+  have hp : (2 : ℝ) ^ a4Shift ≠ 0 := by positivity
+  field_simp
 
 theorem freq_octave (p a4 : ℝ) : midiToFreq (p + 12) a4 = 2 * midiToFreq p a4 := by
+  obtain ⟨h1, _, _, _, _, _⟩ := freq_consts_real
+  have ho : ((m2fOctave : ℚ) : ℝ) = 12 := by rw [octave_twelve.1]; norm_num
   unfold midiToFreq
-  have : (p + 12 - 9) / 12 = (p - 9) / 12 + 1 := by ring
+  rw [h1, ho]
+  have : (p + 12 - ((m2fRef : ℚ) : ℝ)) / 12 = (p - ((m2fRef : ℚ) : ℝ)) / 12 + 1 := by ring
   rw [this, Real.rpow_add (by norm_num), Real.rpow_one]
   ring
 
